@@ -450,7 +450,7 @@ def drv_uncert(tier, nmodels, log):
                     G.cache.clear()
                     _, _, J0, cU0 = G.get_godambe(lin.func, [n], sboots, list(p0), data, 0.01, log=log, boot_theta_adjusts=adj or [])
                     dm = data.copy()
-                    dm.mask[rng.randint(1, n - 1)] = True
+                    dm.mask[1 + (7 * t + 3) % (n - 2)] = True          # (chosen without drawing from the driver's generator: the sequence of random models stays as it was)
                     G.cache.clear()
                     _, _, J1, cU1 = G.get_godambe(lin.func, [n], sboots, list(p0), dm, 0.01, log=log, boot_theta_adjusts=adj or [])
                     same = bool(np.allclose(J0, J1, rtol=1e-12, atol=0) and np.allclose(cU0, cU1, rtol=1e-12, atol=0))
